@@ -529,3 +529,134 @@ Proof.
   - intros H. apply Nat.ltb_lt in H. right. exists t. split; auto. destruct (t_st t); cbn in H; auto; lia.
   - intros [H|(t0 & [= <-] & [H|H])]; [discriminate| |]; rewrite H; reflexivity.
 Qed.
+
+(** * 4. C08: every pending WaitStatus eventually returns, with the status of the first cause *)
+Definition is_waitret (o : obs) : bool := match o with OWaitRet _ => true | _ => false end.
+Definition count_waitret (os : list obs) : nat := countb is_waitret os.
+
+Lemma nowait_count os : Forall nowait os -> count_waitret os = 0.
+Proof.
+  unfold count_waitret. induction 1 as [|o r H _ IH]; cbn; auto. destruct o; cbn in *; auto. tauto.
+Qed.
+
+(* the critical section of a release label neither calls WaitStatus nor lets it return *)
+Lemma raw_rel_waits s l s' os : inv s -> is_rel l = true -> step_raw s l = Some (s', os) -> waits s' = waits s.
+Proof.
+  intros I Il H. apply raw_ctl in H; auto.
+  destruct H as [L Rn Wg -> | c s0 s1 Sc Rn H0 P H1 | f L Rd Rn -> | f i L Rd Hf Rn S5 C0 Ri Wa Hq
+                | L D -> | u L D -> | u un s1 L E Su -> Hs | S5 Cp Wa Cr]; auto.
+  - assert (W0 : waits s0 = waits s) by (destruct H0 as [->|(n & ->)]; reflexivity).
+    rewrite <- W0, <- (sr_waits _ _ _ P). destruct H1 as [->|(_ & ->)]; reflexivity.
+  - apply dequeue_nontask_like.
+  - pose proof (nontask_release (unit_tasks s u) s) as G. apply nontask_fields in G.
+    assert (W1 : waits (release_ids (unit_tasks s u) s) = waits s) by apply G.
+    destruct Hs as [(_ & ->)|(_ & ->)]; cbn; exact W1.
+  - destruct Wa as [Wa|(L & _)]; auto. subst l. discriminate Il.
+Qed.
+
+(* wake-ups: each WaitStatus return takes one pending call *)
+Lemma settle_waits c : forall fuel s acc s' os, reachf c s -> settle fuel s acc = (s', os) ->
+  count_waitret os + waits s' = count_waitret acc + waits s.
+Proof.
+  induction fuel as [|n IH]; cbn; intros s acc s' os R H.
+  - injection H as <- <-. lia.
+  - destruct (settle1 s) as [[s1 os1]|] eqn:E; [|injection H as <- <-; lia].
+    pose proof (rf_settle _ _ _ _ R E) as R1. rewrite (IH _ _ _ _ R1 H).
+    unfold count_waitret. rewrite countb_app. pose proof (no_crash_f _ _ R1) as Cr1.
+    apply settle1_inv in E.
+    destruct E as [f q Rd Q | D _ | u un D _ Eu | i un F E _ | i un F E _ | W _ Q | W _ Q]; cbn; try lia.
+    + destruct (dequeue_nontask_like s) as (_ & _ & Wd & _). rewrite Wd. lia.
+    + cbn in Cr1. discriminate.
+Qed.
+
+Lemma step_rel_waits c s l s' os : reach c s -> is_rel l = true -> step s l = Some (s', os) ->
+  count_waitret os + waits s' = waits s.
+Proof.
+  intros R Il H. pose proof (reach_reachf _ _ R) as Rf. pose proof (reachf_inv _ _ Rf) as I.
+  apply step_decompose in H as (Cr & s1 & os1 & Hr & Hs).
+  pose proof (raw_rel_waits _ _ _ _ I Il Hr) as W1.
+  pose proof (nowait_count _ (raw_nowait _ _ _ _ I Hr)) as N1.
+  destruct Hs as [(_ & -> & ->)|(_ & Hs)]; [lia|].
+  pose proof (settle_waits c _ _ _ _ _ (rf_raw _ _ _ _ _ Rf Cr Hr) Hs). lia.
+Qed.
+
+Lemma run_rel_waits c : forall tr s s' oss, reach c s -> rel_only tr -> run s tr = Some (s', oss) ->
+  count_waitret (concat oss) + waits s' = waits s.
+Proof.
+  induction tr as [|l r IH]; cbn [run]; intros s s' oss R F H.
+  - injection H as <- <-. cbn. lia.
+  - destruct (step s l) as [[s1 os]|] eqn:E; [|discriminate].
+    destruct (run s1 r) as [[s2 oss2]|] eqn:E2; [|discriminate]. injection H as <- <-.
+    inversion F as [|? ? Fl Fr]; subst. cbn [concat]. unfold count_waitret. rewrite countb_app.
+    pose proof (step_rel_waits _ _ _ _ _ R Fl E) as A.
+    pose proof (IH _ _ _ (reach_step _ _ _ _ _ R E) Fr E2) as B. unfold count_waitret in *. lia.
+Qed.
+
+(* [s0 -l-> s1] is the window that stopped the server, [tr1] any later history without a restart, leading to s; from
+   there the goroutines run on their own.  In the last state s' of every maximal release-only run: the server is still
+   stopped with the cause k of the stopping window; every WaitStatus return of the run reports k; returns + calls
+   still pending = calls pending in s; and once no handler is executing and the reader's Recv has returned (which
+   needs no assumption on a channel whose Close unblocks Recv), every pending call has returned and every goroutine
+   has exited *)
+Definition c08_waits_returned (c : config) (s0 : state) (l : label) (s : state)
+    (tr : list label) (s' : state) (oss : list (list obs)) : Prop :=
+  exists k, stop_cause s0 l k /\ stop_err s' = Some k /\ running s' = false /\
+    (forall os r, In os oss -> In (OWaitRet r) os -> r = Some k) /\
+    count_waitret (concat oss) + waits s' = waits s /\
+    ((forall j t, nth_error (tasks s') j = Some t -> t_st t <> TRunning) ->
+     (rd s' = RExited \/ rd s' = RNone \/ cf_unblock c = true) -> 0 < cf_K c ->
+     waits s' = 0 /\ count_waitret (concat oss) = waits s /\ wg s' = 0 /\ all_done s').
+
+Theorem c08_waitstatus_eventually_returns c s0 l s1 os1 tr1 s oss1 : reach c s0 -> step s0 l = Some (s1, os1) ->
+  running s0 = true -> running s1 = false -> run s1 tr1 = Some (s, oss1) -> ~ In LStart tr1 ->
+  eventually s (c08_waits_returned c s0 l s).
+Proof.
+  intros R0 St Rn0 Rn1 H1 Ns.
+  assert (R1 : reach c s1) by (eapply reach_step; eauto).
+  assert (R : reach c s) by (eapply run_reach; eauto).
+  apply (eventually_intro c); auto. intros tr s' oss H F R' Q.
+  pose proof (run_app_fwd _ _ _ _ _ _ _ H1 H) as Hall.
+  assert (Ns' : ~ In LStart (tr1 ++ tr)).
+  { intros I. apply in_app_or in I as [I|I]; [auto|apply (rel_only_no_start _ F I)]. }
+  destruct (status_cause c s0 l s1 os1 (tr1 ++ tr) s' (oss1 ++ oss) R0 St Rn0 Rn1 Hall Ns') as (k & Sc & Se & _ & Hw).
+  destruct (proj2 (stop_err_set c s' R') k Se) as (Rn' & _).
+  exists k. split; [exact Sc|]. split; [exact Se|]. split; [exact Rn'|]. split; [|split].
+  - intros os r I Ir. apply (Hw os r); auto. apply in_or_app. auto.
+  - apply (run_rel_waits c tr s s' oss R F H).
+  - intros Nr Hrd HK. pose proof (run_rel_waits c tr s s' oss R F H) as Wc.
+    assert (T : wg s' = 0 /\ waits s' = 0 /\ all_done s').
+    { destruct Hrd as [Hrd|[Hrd|Hu]].
+      - apply (c08_terminates_q c s' R' Q Rn' (or_introl Hrd) Nr HK).
+      - apply (c08_terminates_q c s' R' Q Rn' (or_intror Hrd) Nr HK).
+      - apply (SrvC08u.terminates_unblock c s' R' Q Rn' Hu Nr HK). }
+    destruct T as (Wg & W0 & Ad). split; [exact W0|]. split; [lia|]. split; [exact Wg|exact Ad].
+Qed.
+
+(* non-vacuity: two WaitStatus calls are pending when Stop is called with a call in its handler; the handler
+   returns and the transport reports the closing error; then the server runs on its own: invoke returns, the reply is
+   delivered, dispatcher and reader exit, and both calls return with the cause of the stop *)
+Definition tr_two_waiting : list label :=
+  [LStart; LCallWait; LCallWait; LRelNext; LFeed (FMsg (InMsgs false [ex_call [49%N] [91;93]%N])); LRelRead; LRelBarrier;
+   LRelAcquire 0; LCallStop 1].
+
+Example c08_waitstatus_eventually_returns_nonvacuous :
+  exists s0 s1 os1 s tr s' oss,
+    reach ex_cfg s0 /\ step s0 (LRelStop 1) = Some (s1, os1) /\ running s0 = true /\ running s1 = false /\
+    run s1 [LGate [91;93]%N (ORes [50%N]); LFeed (FErr SCClosing)] = Some (s, [[OGate [91;93]%N true]; []]) /\
+    run s tr = Some (s', oss) /\ rel_only tr /\ quiescent s' = true /\ waits s = 2 /\ waits s' = 0 /\ length tr = 4 /\
+    concat oss = [OSend false false [{| r_id := [49%N]; r_body := BRes [50%N] |}];
+                  OWaitRet (Some SCStop); OWaitRet (Some SCStop)] /\
+    rd s' = RExited /\ 0 < cf_K ex_cfg /\
+    forallb (fun t => match t_st t with TRunning => false | _ => true end) (tasks s') = true.
+Proof.
+  exists (st_of ex_cfg tr_two_waiting). eexists _, _, _.
+  exists [LRelHandled 0; LRelDeliver 0; LRelNext; LRelRead]. eexists _, _.
+  split; [apply reach_st_of; vm_compute; discriminate|]. split; [vm_compute; reflexivity|].
+  split; [vm_compute; reflexivity|]. split; [vm_compute; reflexivity|]. split; [vm_compute; reflexivity|].
+  split; [vm_compute; reflexivity|]. split; [repeat constructor|].
+  repeat split; try (vm_compute; reflexivity).
+Qed.
+
+Lemma count_waitret_spec os :
+  count_waitret os = length (filter (fun o => match o with OWaitRet _ => true | _ => false end) os).
+Proof. unfold count_waitret. apply countb_filter_length. Qed.
